@@ -124,7 +124,8 @@ def plot_specs(draw, ndims=None, min_levels=1, max_levels=3, max_cells=6000, min
     return dict(mesh=mesh, geom=geom, fields=list(flds),
                 time=draw(st.sampled_from(TIMES)), step=draw(st.sampled_from([7, 0, 70100])),
                 payload=draw(payloads(payload_kinds)),
-                style=draw(st.sampled_from(["amrex", "tool"])),
+                style=draw(st.sampled_from(["amrex", "tool", "decimal15"])),
+                bounds_jitter=draw(st.sampled_from([0, 0, 0, 1, 2, 3, 5, 8])),
                 extra_factors=draw(st.sampled_from([0, 0, 1, 2])))
 
 
@@ -273,6 +274,14 @@ class Plot:
         self.time = float(spec["time"])
         self.step = int(spec.get("step", 7))
         self.style = spec.get("style", "amrex")
+        # "decimal15": a writer that prints 15 significant digits.  Every number of the header is then rounded on its
+        # own, so box bounds, cell sizes and domain bounds agree only to rounding - what the headers state is the truth.
+        self._r = (lambda x: float("%.15g" % x)) if self.style == "decimal15" else (lambda x: x)
+        if self.style == "decimal15":
+            self.geo_lo = [self._r(x) for x in self.geo_lo]
+            self.geo_hi = [self._r(x) for x in self.geo_hi]
+            self.dx = [[self._r(x) for x in row] for row in self.dx]
+            self.time = self._r(self.time) if self.time == self.time and abs(self.time) != float("inf") else self.time
         self.extra_factors = int(spec.get("extra_factors", 0))
         self.payload = spec.get("payload", dict(kind="coded", seed=0))
         self.data_fn = data_fn
@@ -285,8 +294,21 @@ class Plot:
     def phys_box(self, l, b):
         lo, hi = self.levels[l]["boxes"][b]
         sh = [x * 2 ** l for x in self.shift0]
-        return [[self.geo_lo[d] + (lo[d] - sh[d]) * self.dx[l][d], self.geo_lo[d] + (hi[d] + 1 - sh[d]) * self.dx[l][d]]
-                for d in range(self.ndims)]
+        out = [[self._r(self.geo_lo[d] + (lo[d] - sh[d]) * self.dx[l][d]), self._r(self.geo_lo[d] + (hi[d] + 1 - sh[d]) * self.dx[l][d])]
+               for d in range(self.ndims)]
+        j = int(self.spec.get("bounds_jitter", 0)) if self.style != "decimal15" else 0    # 15-digit text would round it away
+        if j:
+            # a writer whose arithmetic differs in the last bit (e.g. bounds computed from the high end): each stated
+            # bound is the index-derived value moved by -1, 0 or +1 ulp.  The bounds are redundant information that
+            # agrees with the index ranges to rounding; the stated values are the truth for the metadata checks.
+            # The perturbation is a function of (level, direction, face index) only, as it is for any real writer: two
+            # boxes sharing a face state the same number for it.
+            for d in range(self.ndims):
+                for side, face in ((0, lo[d]), (1, hi[d] + 1)):
+                    k = (j * 2654435761 + l * 97 + d * 7 + (face & 0xFFFF) * 131) % 3 - 1
+                    if k:
+                        out[d][side] = float(np.nextafter(out[d][side], np.inf if k > 0 else -np.inf))
+        return out
 
     def centres(self, l, d):
         n = self.grid_size(l)[d]
@@ -363,6 +385,10 @@ class Plot:
             lab.append("origin!=0")
         if len(set(self.dx[0])) > 1:
             lab.append("anisotropic")
+        if self.spec.get("bounds_jitter") and self.style != "decimal15":
+            lab.append("bounds+-1ulp")
+        if self.style == "decimal15":
+            lab.append("15-digit-header")
         return lab
 
     def header_order_is_file_order(self, l):
@@ -473,8 +499,8 @@ def minmax_rows(arr, nf):
 def write(plot, path):
     """Materialise a Plot as a plotfile directory.  Returns {level: [offset per header box]}."""
     nd, nf, L = plot.ndims, plot.nf, plot.nlev - 1
-    amrex = plot.style == "amrex"
-    fmt = _fmt17 if amrex else (lambda x: repr(float(x)))
+    amrex = plot.style in ("amrex", "decimal15")
+    fmt = _fmt17 if plot.style == "amrex" else ((lambda x: "%.15g" % x) if plot.style == "decimal15" else (lambda x: repr(float(x))))
     tb = " " if amrex else ""
     os.makedirs(path)
     z = ",".join("0" for _ in range(nd))
